@@ -184,6 +184,13 @@ def unit_products(kind, ypos=0):
             kit.prove_vec(c, "after_substitution_mv_is_J(new_point)_u", ju2, u.v.apply(JN + "@%s" % pt2))
             kit.prove_vec(c, "after_substitution_rmv_is_JT(new_point)_g", jtg2, g.v.apply(JN + "@%s^H" % evs[1]["pt"]))
             c.check("new_point_differs_from_construction_point", pt2 != pt0)
+        # back at the original parameters straight after a substitution by a different point: the products are those of
+        # the original point again (a graph built for the temporary point must not be served)
+        n2a = len(log)
+        with st.no_grad():
+            ju3a = J.mv(u)
+        c.check("cached_graph_used_again_after_restoration", len(log) == n2a)
+        c.prove("after_restoration_mv_is_J(original_point)_u", ju3a.v.eq(u.v.apply(JN + "@%s" % pt0)))
         # substitution by new leaves that share the memory of the old tensors (p.detach().requires_grad_()): they are
         # different tensors - products must be recomputed at them so that derivatives flow to the new leaves
         y3, p3 = y.detach().requires_grad_(), p.detach().requires_grad_()
